@@ -19,6 +19,8 @@ from sympy import QQ, field
 
 BRANCH_TIMEOUT_MS = 5000
 OBLIGATION_TIMEOUT_MS = 20000
+# second-solver cross-check (symx/xcheck.py): per scenario, the 1st, 4th, 16th, 64th ... query answered `unsat` is kept as SMT-LIB2 text
+XCHECK = dict(budget=0, seen=0, dumps=[])
 
 
 class HarnessError(Exception):
@@ -315,6 +317,20 @@ class Engine:
                 if all(z3.is_true(dm.eval(c)) for c in CTX.base):
                     self.model = dm
                     break
+            if self.model is None and (CTX.uf_apps or CTX.pool_used):
+                # definitional / uninterpreted-function constraints cannot be evaluated by substitution: pin the named symbols to a generic
+                # point and let z3 complete the model (ground propagation only)
+                for scale in (Fraction(1, 4), Fraction(1), Fraction(1, 16)):
+                    pins = [CTX.zvars[n] == RV(scale * Fraction(17 + (7 * i) % 23, 32)) for i, n in enumerate(CTX.names)]
+                    self.solver.push()
+                    self.solver.add(*pins)
+                    self.solver.set("timeout", 5000)
+                    r = str(self.solver.check())
+                    if r == "sat":
+                        self.model = self.solver.model()
+                    self.solver.pop()
+                    if self.model is not None:
+                        break
         if self.model is None:
             self.solver.push()
             self.solver.add(*self.pc)
@@ -341,6 +357,14 @@ class Engine:
         self.solver.set("timeout", timeout_ms)
         r = str(self.solver.check())
         m = self.solver.model() if r == "sat" else None
+        if r == "unsat" and XCHECK["budget"] > len(XCHECK["dumps"]):
+            XCHECK["seen"] += 1
+            n = XCHECK["seen"]
+            if n & (n - 1) == 0 and (n.bit_length() - 1) % 2 == 0:
+                try:
+                    XCHECK["dumps"].append(self.solver.to_smt2())
+                except Exception:  # noqa
+                    pass
         self.solver.pop()
         self.stats["solver_calls"] += 1
         self.stats["solver_time"] += time.time() - t0
